@@ -239,7 +239,10 @@ class Signed(BitVector):
         elif isinstance(rhs, (int, Integer)):
             result_width = 2 * self.width
             lhs = self.to_int()
-            rhs = int(rhs)
+            # numeric_std converts an integer factor to the width of the vector
+            # operand (to_signed(rhs, width)), do the same for constant operands
+            half = 2 ** (self.width - 1)
+            rhs = (int(rhs) + half) % (2 * half) - half
         else:
             return NotImplemented
 
@@ -254,7 +257,10 @@ class Signed(BitVector):
 
         elif isinstance(lhs, (int, Integer)):
             result_width = 2 * self.width
-            lhs = int(lhs)
+            # numeric_std converts an integer factor to the width of the vector
+            # operand (to_signed(lhs, width)), do the same for constant operands
+            half = 2 ** (self.width - 1)
+            lhs = (int(lhs) + half) % (2 * half) - half
             rhs = self.to_int()
         else:
             return NotImplemented
